@@ -181,7 +181,7 @@ func c18DeliveryO(nk, per, bound int, lateConsumers, roundRobin bool) *explore.S
 					}
 					remaining[k]--
 					id++
-					key := fmt.Sprintf("k%d", k)
+					key := c18Key(k)
 					order = append(order, key)
 					sent[key] = append(sent[key], id)
 					e.shared.A.Inject(c18Msg(id, key))
@@ -984,4 +984,15 @@ func c18DoneCtxRead(n, bound int) *explore.Scenario {
 			vsched.Quiesce()
 		},
 	}
+}
+
+// c18Key: the key alphabet - two ordinary keys first, then degenerate ones: the empty key (an
+// envelope without a source), keys that differ only in letter case or by a trailing character,
+// separators, a non-ASCII key. The demultiplexer treats a key as an opaque string.
+func c18Key(k int) string {
+	keys := []string{"k0", "k1", "", "K0", "k0.", "a/b:c", "-bin", "\u043a\u043b\u044e\u0447"}
+	if k < len(keys) {
+		return keys[k]
+	}
+	return fmt.Sprintf("k%d", k)
 }
